@@ -635,3 +635,33 @@ impl<A: Subscription, B: Subscription> Subscription for OneSidedUnsub<A, B> {
   fn unsubscribe(self) { self.a.unsubscribe(); }
   fn is_closed(&self) -> bool { self.a.is_closed() && self.b.is_closed() }
 }
+
+// ---------------------------------------------------------------- C09
+pub struct DoubleEdge<O, Item> { observer: MutRc<Option<O>>, leading: bool, tailing: bool, trailing_value: MutRc<Option<Item>> }
+impl<Item: Clone, Err, O: Observer<Item, Err>> Observer<Item, Err> for DoubleEdge<O, Item> {
+  fn next(&mut self, value: Item) {
+    if self.tailing {
+      *self.trailing_value.rc_deref_mut() = Some(value.clone());
+    }
+    if self.leading {
+      self.observer.next(value)
+    }
+  }
+  fn error(self, err: Err) { self.observer.error(err) }
+  fn complete(mut self) {
+    if let Some(v) = self.trailing_value.rc_deref_mut().take() {
+      self.observer.next(v);
+    }
+    self.observer.complete()
+  }
+  fn is_finished(&self) -> bool { self.observer.is_finished() }
+}
+pub fn clone_task<O, Item: Clone, Err>((mut observer, value): (MutRc<Option<O>>, MutRc<Option<Item>>)) -> NormalReturn<()>
+where
+  O: Observer<Item, Err>,
+{
+  if let Some(v) = value.rc_deref().clone() {
+    observer.next(v);
+  }
+  NormalReturn::new(())
+}
